@@ -1,0 +1,23 @@
+//! Verification hook (cargo feature `verif-hooks`): start a `Discv5` whose handler is scripted.
+
+use super::*;
+use crate::service::verif::ScriptedHandler;
+
+impl Discv5 {
+    /// Same as `start`, but the service talks to a pair of channels instead of a real handler.
+    pub async fn start_scripted(&mut self) -> Result<ScriptedHandler, Error> {
+        if self.service_channel.is_some() {
+            return Err(Error::ServiceAlreadyStarted);
+        }
+        let (service_exit, service_channel, scripted) = Service::spawn_scripted(
+            self.local_enr.clone(),
+            self.enr_key.clone(),
+            self.kbuckets.clone(),
+            self.config.clone(),
+        )
+        .await?;
+        self.service_exit = Some(service_exit);
+        self.service_channel = Some(service_channel);
+        Ok(scripted)
+    }
+}
